@@ -469,16 +469,33 @@ function!(Xor(a: Boolean, b: Boolean)=>Boolean, ctx=ctx, arg_opts=raw,{
     Ok(ret.into())
 });
 
+// comparison is defined on two integers, two strings or two booleans; anything else is a type error
+// reported when the expression is loaded, never a panic at evaluation time
 macro_rules! compare_op{
     ($name:ident, $op:tt) =>{
-        function!($name(a: Any, b: Any)=>Boolean, {
-            match (a,b) {
-                (Value::Integer(a),Value::Integer(b)) => Ok((a $op b).into()),
-                (Value::String(a),Value::String(b)) => Ok((a $op b).into()),
-                (Value::Boolean(a),Value::Boolean(b)) => Ok((a $op b).into()),
-                _ => panic!("not implemented")
+        function_head!($name(a: Any, b: Any) => Boolean);
+        impl Callable for $name {
+            fn signature(&self, ctx: ScriptContextRef, args: &[Value]) -> Result<Type, Error> {
+                let a = args[0].real_type_of(ctx.clone())?;
+                let b = args[1].real_type_of(ctx)?;
+                let comparable =
+                    |t: &Type| matches!(t, Type::Integer | Type::String | Type::Boolean | Type::Any);
+                if !comparable(&a) || !comparable(&b) || a != b {
+                    bail!("can not compare {} with {}", a, b)
+                }
+                Ok(Type::Boolean)
             }
-        });
+            fn call(&self, ctx: ScriptContextRef, args: &[Value]) -> Result<Value, Error> {
+                let a = args[0].real_value_of(ctx.clone())?;
+                let b = args[1].real_value_of(ctx)?;
+                match (a,b) {
+                    (Value::Integer(a),Value::Integer(b)) => Ok((a $op b).into()),
+                    (Value::String(a),Value::String(b)) => Ok((a $op b).into()),
+                    (Value::Boolean(a),Value::Boolean(b)) => Ok((a $op b).into()),
+                    (a,b) => bail!("can not compare {} with {}", a, b),
+                }
+            }
+        }
     }
 }
 
